@@ -27,6 +27,7 @@ type LoopSpec struct {
 	Invariants []*Clause
 	Assumes    []*Clause // assumed at the loop head, never checked (reported)
 	Exits      []*Clause // obligations on every edge that leaves the loop (exhaustion, break, goto out; not return)
+	BackEdges  []*Clause // obligations on every back edge of the loop only (not assumed at the head): "every iteration did X"
 	Decreases  *Clause
 	Unroll     int
 }
@@ -129,7 +130,7 @@ var topKeywords = map[string]bool{"func": true, "extern": true, "pred": true, "g
 	"lemma": true, "axiom": true, "benign": true, "fn": true, "immutable": true, "constructors": true, "ghostgroup": true, "chaninv": true, "modset": true}
 var clauseKeywords = map[string]bool{"props": true, "arith": true, "requires": true, "ensures": true,
 	"modifies": true, "loop": true, "invariant": true, "decreases": true, "unroll": true, "trusted": true,
-	"maypanic": true, "guarantee": true, "guards": true, "ghostparam": true, "inst": true, "onreturn": true, "onspawn": true, "lockassume": true, "assume": true, "nochan": true, "keeps": true, "exit": true, "chans": true}
+	"maypanic": true, "guarantee": true, "guards": true, "ghostparam": true, "inst": true, "onreturn": true, "onspawn": true, "lockassume": true, "assume": true, "nochan": true, "keeps": true, "exit": true, "chans": true, "backedge": true}
 
 type logicalLine struct {
 	kw   string
@@ -701,6 +702,15 @@ func (cs *Contracts) loadFile(path, pkgPath string) error {
 				return fmt.Errorf("%s:%d: exit outside loop", path, l.line)
 			}
 			curLoop.Exits = append(curLoop.Exits, c)
+		case "backedge":
+			c, err := mkClause(l)
+			if err != nil {
+				return err
+			}
+			if curLoop == nil {
+				return fmt.Errorf("%s:%d: backedge outside loop", path, l.line)
+			}
+			curLoop.BackEdges = append(curLoop.BackEdges, c)
 		case "decreases":
 			c, err := mkClause(l)
 			if err != nil {
